@@ -139,6 +139,8 @@ func runC06(c *Ctx) {
 	checkSumLineSplit(c, "R06g")
 	c.Rule("R06i", "sibling agreement: every implementation of migrate.Dir.Files orders the files by name alone (same rule as C20/R20c): the directory hash is cumulative over that order, so a Dir that orders by another key first (version, then name) computes a different sum for the same files and an untouched directory fails validation after it is copied into / archived through that Dir", 3)
 	checkFilesOrdering(c, "R06i")
+	c.Rule("R06k", ruleTextValidateStrict, 2)
+	checkValidateStrict(c, "R06k")
 	c.Rule("R06j", ruleTextConfigBeforeFormat, 4)
 	checkConfigBeforeFormat(c, "R06j")
 	c.Rule("R06h", ruleTextWriteReplaces, 2)
@@ -742,6 +744,53 @@ func checkDigest(c *Ctx) {
 			return true
 		})
 		c.Check("R06c", "HashFile.Sum|covers N and H", sf.Decl.Pos(), fields["N"] && fields["H"], "HashFile.Sum must hash both the file name and the file digest of every entry")
+		// the two fields are delimited in the digest input: between the write of N and the write of H (or inside one of
+		// them) something that is not a field of the entry is written — a separator constant, a length
+		var seq []string
+		ast.Inspect(sf.Decl.Body, func(m ast.Node) bool {
+			call, ok := m.(*ast.CallExpr)
+			if !ok {
+				return true
+			}
+			se, ok := call.Fun.(*ast.SelectorExpr)
+			if !ok || !(se.Sel.Name == "Write" || se.Sel.Name == "WriteString" || strings.HasPrefix(se.Sel.Name, "Fprint")) {
+				return true
+			}
+			kind := ""
+			for _, a := range call.Args {
+				hasField, hasOther := "", false
+				ast.Inspect(a, func(k ast.Node) bool {
+					switch x := k.(type) {
+					case *ast.SelectorExpr:
+						if x.Sel.Name == "N" || x.Sel.Name == "H" {
+							hasField += x.Sel.Name
+							return false
+						}
+					case *ast.BasicLit:
+						hasOther = true
+					case *ast.CallExpr:
+						if id, ok := x.Fun.(*ast.Ident); ok && id.Name == "len" {
+							hasOther = true
+							return false
+						}
+					}
+					return true
+				})
+				switch {
+				case hasField != "" && hasOther:
+					kind += "(" + hasField + "+sep)"
+				case hasField != "":
+					kind += hasField
+				case hasOther:
+					kind += "sep"
+				}
+			}
+			if kind != "" {
+				seq = append(seq, kind)
+			}
+			return true
+		})
+		c.Check("R06c", "HashFile.Sum|name and digest are delimited", sf.Decl.Pos(), !strings.Contains(strings.Join(seq, ","), "N,H") && !strings.Contains(strings.Join(seq, ","), "NH"), "HashFile.Sum feeds the name and the digest of every entry into the hash back to back (%s): all ways of cutting the same byte string into names and digests have the same sum, so a sum file whose lines were edited by moving the name/hash boundary, or by merging two lines, still validates", strings.Join(seq, ","))
 	}
 	mf := c.Func("R06c", pMigrate, "HashFile", "MarshalText")
 	uf := c.Func("R06c", pMigrate, "HashFile", "UnmarshalText")
@@ -792,6 +841,20 @@ func checkDigest(c *Ctx) {
 		}
 		sort.Strings(missing)
 		c.Check("R06c", "MarshalText/UnmarshalText|separators agree", mf.Decl.Pos(), len(r) > 0 && len(missing) == 0, "UnmarshalText strips or splits on %q, which MarshalText never writes (writer constants: %v): a sum file written by Atlas is not read back as written", missing, keys(w))
+		// the reader takes entries as written: it applies no normalisation the writer does not undo
+		norm := ""
+		ast.Inspect(uf.Decl.Body, func(m ast.Node) bool {
+			if call, ok := m.(*ast.CallExpr); ok {
+				if fn := calleeOf(uf.Info(), call); fn != nil && fn.Pkg() != nil && fn.Pkg().Path() == "strings" {
+					switch fn.Name() {
+					case "TrimSpace", "Fields", "ToLower", "ToUpper", "TrimLeft", "TrimRight", "Trim":
+						norm = types.ExprString(call)
+					}
+				}
+			}
+			return true
+		})
+		c.Check("R06c", "HashFile.UnmarshalText|entries are taken as written", uf.Decl.Pos(), norm == "", "UnmarshalText normalises what it reads (%s): a sum file edited in a way the normalisation hides (blanks around a name) yields the same entries and the directory still validates", norm)
 		// header verified
 		info := uf.Info()
 		verified := false
